@@ -1123,7 +1123,8 @@ class Interp:
                 self.effect("construct", cls, a, site)
                 return n
             o = Obj(f"{cls}@{self.siteid(site)}", cls=(mod, cls))
-            is_dc = any("dataclass" in norm(dd) for dd in cdef.decorator_list)
+            is_nt = any(norm(b).split(".")[-1] == "NamedTuple" for b in cdef.bases)  # typing.NamedTuple: fields in annotation order
+            is_dc = is_nt or any("dataclass" in norm(dd) for dd in cdef.decorator_list)
             is_exc = any(isinstance(b, ast.Name) and b.id in ("Exception", "BaseException") for b in cdef.bases)
             if is_dc and not is_exc and not self.find_method(mod, cls, "__init__"):
                 # a dataclass: the generated __init__ stores the arguments / per-instance defaults of the annotated fields
@@ -1152,6 +1153,8 @@ class Interp:
                         val = Sym(f"{cls}.{fname}")
                     o.attrs[fname] = val
                     self.effect("store", o, fname, val, st_)
+                if is_nt:
+                    o.tuple_fields = [st_.target.id for st_ in cdef.body if isinstance(st_, ast.AnnAssign) and isinstance(st_.target, ast.Name)]
                 post = self.find_method(mod, cls, "__post_init__")
                 if post is not None:
                     self.call_func(Func(post[0], post[1], post[2], self_val=o), [], {}, site)
@@ -2042,7 +2045,30 @@ class Interp:
             fnv.defaults = self._capture_defaults(s.args, env)  # evaluated when the def statement runs
             env.vars[s.name] = fnv
             return
-        if isinstance(s, (ast.Import, ast.ImportFrom, ast.Global, ast.Nonlocal, ast.ClassDef, ast.Delete)):
+        if isinstance(s, ast.Delete):
+            for t in s.targets:
+                if isinstance(t, ast.Subscript):
+                    base = self.ev(t.value, env)
+                    idx = self.ev(t.slice, env)
+                    if isinstance(base, Lst) and not base.open and isinstance(idx, Const) and isinstance(idx.v, int) \
+                            and -len(base.items) <= idx.v < len(base.items):
+                        del base.items[idx.v]
+                    elif isinstance(base, Dct):
+                        k = idx.v if isinstance(idx, Const) else tagof(idx)
+                        if k in base.items:
+                            del base.items[k]
+                            base.keyvals.pop(k, None)
+                        elif not getattr(base, "shared_name", None):
+                            exc = ExcV("builtins.KeyError", {}, [idx])
+                            self.effect("raise", exc, s)
+                            raise _Raise(exc)
+                    elif isinstance(base, Lst):
+                        base.open = True
+                    self.effect("delitem", base, idx, s)
+                elif isinstance(t, ast.Name):
+                    env.vars.pop(t.id, None)
+            return
+        if isinstance(s, (ast.Import, ast.ImportFrom, ast.Global, ast.Nonlocal, ast.ClassDef)):
             return
         if isinstance(s, ast.Match):
             subject = self.ev(s.subject, env)
@@ -2179,6 +2205,10 @@ class Interp:
             if isinstance(base, Dct):
                 base.items[idx.v if isinstance(idx, Const) else tagof(idx)] = v
                 self.effect("dictset", base, idx, v, site or t)
+                return
+            if isinstance(base, Lst) and not base.open and isinstance(idx, Const) and isinstance(idx.v, int) and -len(base.items) <= idx.v < len(base.items):
+                base.items[idx.v] = v  # in place: every alias of the list sees it
+                self.effect("setitem", base, idx, v, site or t)
                 return
             self.effect("setitem", base, idx, v, site or t)
             return
